@@ -218,26 +218,55 @@ Print Assumptions C11_tx_history_scans.
    supplied with them -- pruning by the stored bounds never changes a filtered scan: it returns exactly the
    selected rows of the current snapshot.  (The bounds stored for a pre-built file are none, or recomputed from
    its content: Model/SchemaTx.v verified_bounds.)  pf_typed: every cell of a pre-built file's column has the
-   kind of the column's footer type. *)
+   kind of the column's footer type.  NoDup (adopted_ids txs): no pre-built file is handed to append_files twice in the
+   history -- the code lists a path once (seen_paths) while this model scans a file adopted twice twice: for such histories
+   the model does not speak for the code, and they are excluded here, in the statement.
+   The bounds are the caller's "WHATEVER" only because nothing a caller can pass makes append_files skip the verification:
+   the flag _statistics_computed_here is honoured for a module-private token alone (pinned by translator/gen_schema.py; the
+   harness passes _statistics_computed_here=True with bounds of other content). *)
 Theorem C11_tx_history_filter : forall (conv : catype -> pyval -> option pyval) (X : value -> value -> bool) (ts : ischema)
     (txs : list txn) (fs : list fexpr),
   conv_kinds conv -> NoDup (map fname (sfields ts)) -> NoDup (map fid (sfields ts)) ->
-  Forall (txn_Q pf_typed) txs ->
+  Forall (txn_Q pf_typed) txs -> NoDup (adopted_ids txs) ->
   let w := run_txs conv (init (Some ts)) txs in
   filtered_scan X fs w = Some (filter (row_selected X fs) (map vrow (flat_map df_rows (current w)))).
-Proof. exact tx_filter_history. Qed.
+Proof. exact tx_filter_history_once. Qed.
 Print Assumptions C11_tx_history_filter.
 
 (* Under conv_sound: after any history of transactions the full scan returns exactly, in order, what the calls
    of the committed transactions supplied: `canon_c` of every record of an accepted append_data call, the rows of
    every file of an accepted append_files call, nothing for a call that raised or a transaction that did not
-   commit (txs_expected). *)
+   commit (txs_expected).  NoDup (adopted_ids txs): as for C11_tx_history_filter -- histories that adopt the same pre-built
+   file twice are outside what this model says about the code. *)
 Theorem C11_tx_exact_partial : forall (rnd32 : Q -> num) (conv : catype -> pyval -> option pyval),
   conv_sound rnd32 conv ->
-  forall (ts : ischema) (txs : list txn),
+  forall (ts : ischema) (txs : list txn), NoDup (adopted_ids txs) ->
   full_scan (run_txs conv (init (Some ts)) txs) = Some (txs_expected conv ts rnd32 (init (Some ts)) txs).
-Proof. exact tx_exact. Qed.
+Proof. exact tx_exact_once. Qed.
 Print Assumptions C11_tx_exact_partial.
+
+(* The OTHER caller-supplied fields of a pre-built DataFile that a manifest stores (Model/SchemaTx.v pclaims: the keys of the
+   column_sizes / value_counts / null_value_counts maps, the checksum, the record_count).  An append_files call that is
+   ACCEPTED -- in any world, for any files with ANY such claims -- stores for every one of its files an entry every read can
+   decode (every statistics key reads back as an int: the stored maps are recomputed under the table's field ids), a checksum
+   that is the file's own or none (a file whose supplied checksum is not its own is refused: the call is not accepted), and
+   the file's number of rows as its record count.  Scope, honestly: this is a statement about WHAT IS STORED per file
+   (stored_claims, tied to the code by the translator's pins on _with_verified_bounds and by the `transactions` /
+   `stored_claims` correspondences); full_scan of Model/Schema.v models the layout cause of a failing scan only, so "an
+   undecodable entry / a failing checksum makes the scan raise" is the code's behaviour (reproduced by the harness), not a
+   derivation in the model. *)
+Theorem C11_tx_accepted_claims_sound : forall (conv : catype -> pyval -> option pyval) (w : world) (m : list Z) (h : Z) (fs : list pfile)
+    (w' : world) (wr : list Z) (added : list dfile),
+  call_step conv w m h (CFiles fs) = (w', wr, 0, added) ->
+  forall p, In p fs -> claims_sound (stored_claims (w_schema w) p) p = true.
+Proof. exact accepted_files_claims_sound. Qed.
+Print Assumptions C11_tx_accepted_claims_sound.
+
+(* Storing the claims AS GIVEN -- what the unchanged library did -- is refuted: a well-formed file with a column_sizes key
+   "abc" (ex_bad_key) gets an entry no read can decode. *)
+Theorem C11_tx_claims_as_given_refuted : ~ claims_as_given_sound_full.
+Proof. exact claims_as_given_refuted. Qed.
+Print Assumptions C11_tx_claims_as_given_refuted.
 
 (* ================= handle provenance (Model/SchemaOpen.v): handles obtained by load_table, by create_table
    with ANY schema argument on the existing table, by Table(...); re-bound, or several alive at once ================= *)
@@ -248,15 +277,17 @@ Theorem C11_open_derives_only_persisted : forall o : opener, forallb safe_action
 Proof. exact open_actions_safe. Qed.
 Print Assumptions C11_open_derives_only_persisted.
 
-(* Obtaining a handle -- whatever the opening code does to the handle -- leaves the schema, the snapshot list,
-   the stored files and every scan unchanged: the schema argument of create_table is not applied to a table
-   that exists. *)
-Theorem C11_open_no_trace : forall (acts : list oaction) (w : world) (h : Z) (arg : option ischema),
+(* MODEL SANITY (not a fact about the code): in Model/SchemaOpen.v an opening can only set the handle's cache, so it
+   leaves the schema, the snapshot list, the stored files and every scan unchanged BY CONSTRUCTION -- for any action list,
+   the unsafe ones included.  That create_table's schema argument is not applied to a table that exists is the reading
+   given to OAInitIfAbsent; the content is carried by C11_open_derives_only_persisted (regenerated actions), by
+   C11_handle_provenance_irrelevant, and for create_table on an existing table by C18's theorems. *)
+Theorem C11_open_no_trace_model_sanity : forall (acts : list oaction) (w : world) (h : Z) (arg : option ischema),
   let w' := open_with acts w h arg in
   w_schema w' = w_schema w /\ w_snaps w' = w_snaps w /\ w_store w' = w_store w
   /\ full_scan w' = full_scan w /\ (forall X fs, filtered_scan X fs w' = filtered_scan X fs w).
 Proof. exact open_no_trace. Qed.
-Print Assumptions C11_open_no_trace.
+Print Assumptions C11_open_no_trace_model_sanity.
 
 (* Handle provenance is irrelevant: in ANY history of openings (any opener, any schema argument, any handle name,
    new or re-bound) and append attempts, every append has the outcome, and the table reaches the state -- schema,
@@ -408,17 +439,24 @@ Qed.
    whose LAST file has a divergent footer, and an accepted records call commits one snapshot of 3 files. *)
 Definition ex_good (i : Z) : pfile :=
   {| pf_id := i; pf_canonical := true; pf_exists := true; pf_parquet := true; pf_footer := Some (arrow_of ex_fields);
-     pf_rows := [[(0, PV (VInt i)); (1, PV VNull)]]; pf_lo := None; pf_hi := None |}.
+     pf_rows := [[(0, PV (VInt i)); (1, PV VNull)]]; pf_lo := None; pf_hi := None; pf_claims := no_claims |}.
 Definition ex_missing : pfile :=
   {| pf_id := 99; pf_canonical := true; pf_exists := false; pf_parquet := true; pf_footer := None; pf_rows := [];
-     pf_lo := None; pf_hi := None |}.
+     pf_lo := None; pf_hi := None; pf_claims := no_claims |}.
 Definition ex_divergent : pfile :=
   {| pf_id := 98; pf_canonical := true; pf_exists := true; pf_parquet := true; pf_footer := Some (rev (arrow_of ex_fields)); pf_rows := [];
-     pf_lo := None; pf_hi := None |}.
+     pf_lo := None; pf_hi := None; pf_claims := no_claims |}.
 (* a well-formed file holding a = 5 whose caller CLAIMS the bounds 100 .. 200 for column a (field id 1) *)
 Definition ex_lying : pfile :=
   {| pf_id := 60; pf_canonical := true; pf_exists := true; pf_parquet := true; pf_footer := Some (arrow_of ex_fields);
-     pf_rows := [[(0, PV (VInt 5)); (1, PV VNull)]]; pf_lo := Some [(1, VInt 100)]; pf_hi := Some [(1, VInt 200)] |}.
+     pf_rows := [[(0, PV (VInt 5)); (1, PV VNull)]]; pf_lo := Some [(1, VInt 100)]; pf_hi := Some [(1, VInt 200)];
+     (* ... and a column_sizes map keyed "abc", the file's own checksum, and record_count = 100 *)
+     pf_claims := {| pc_stat_keys := [None; Some 1]; pc_sum := Some true; pc_count := 100 |} |}.
+(* the same file with a checksum that is not its own *)
+Definition ex_wrong_sum : pfile :=
+  {| pf_id := 61; pf_canonical := true; pf_exists := true; pf_parquet := true; pf_footer := Some (arrow_of ex_fields);
+     pf_rows := [[(0, PV (VInt 5)); (1, PV VNull)]]; pf_lo := None; pf_hi := None;
+     pf_claims := {| pc_stat_keys := []; pc_sum := Some false; pc_count := 1 |} |}.
 Definition ex_tx3 : txn := {| t_handle := 0; t_calls := [CFiles [ex_lying]]; t_end := EndCommit true |}.
 Definition ex_a_is_5 : fexpr := {| fcol := 0; fop_ := EQ; fsval := VInt 5; flval := [] |}.
 Definition ex_tx1 : txn := {| t_handle := 0; t_calls := [CFiles [ex_good 50; ex_missing]]; t_end := EndCommit true |}.
@@ -444,6 +482,13 @@ Example C11_tx_nonvacuous :
   /\ filtered_scan (fun _ _ => false) [ex_a_is_5] (run_txs ex_conv (init (Some ex_ts)) [ex_tx3]) = Some [ [(0, VInt 5); (1, VNull)] ]
   /\ file_may_match [(1, VInt 100)] [(1, VInt 200)] (ids_of ex_fields) [ex_a_is_5] = false
   /\ Forall (txn_Q pf_typed) [ex_tx1; ex_tx2; ex_tx3]
+  /\ NoDup (adopted_ids [ex_tx1; ex_tx2; ex_tx3])
+  (* the other claims: ex_lying (a statistics key "abc", record_count 100 for one row) is ACCEPTED and stored with the table's
+     field ids as keys and the count 1; stored as given, its entry would be unsound; ex_wrong_sum is refused (tag 6) *)
+  /\ (match call_step ex_conv (init (Some ex_ts)) [] 0 (CFiles [ex_lying]) with (_, _, t, added) => (t, map df_id added) end) = (0, [60])
+  /\ stored_claims (Some ex_ts) ex_lying = {| sc_stat_keys := [Some 1; Some 2]; sc_sum_ok := Some true; sc_count := 1 |}
+  /\ claims_sound (stored_claims_as_given ex_lying) ex_lying = false
+  /\ (match call_step ex_conv (init (Some ex_ts)) [] 0 (CFiles [ex_good 50; ex_wrong_sum]) with (_, _, t, added) => (t, map df_id added) end) = (6, [])
   (* storage faults: the regenerated flags say that a failing refresh() / marker write reaches the caller *)
   /\ (resolve_refresh_propagates, marker_failure_propagates, queue_failure_propagates, files_exists_failure_propagates) = (true, true, true, true)
   /\ call_step ex_conv (init (Some ex_ts)) [] 0 (CRecordsF FAfterWrite None [ex_rec (PV (VInt 7)) (PV VNull)])
@@ -475,6 +520,8 @@ Proof.
   split.
   { repeat constructor; simpl; auto; intros row Hrow c;
       repeat (destruct Hrow as [<-|Hrow]; [unfold cell; simpl; repeat (destruct (Z.eqb c _); [reflexivity|]); reflexivity|]); contradiction. }
+  split; [repeat constructor; simpl; intuition discriminate|].
+  split; [vm_compute; reflexivity|]. split; [vm_compute; reflexivity|]. split; [vm_compute; reflexivity|]. split; [vm_compute; reflexivity|].
   split; [reflexivity|]. split; [vm_compute; reflexivity|]. split; [reflexivity|].
   split; [vm_compute; reflexivity|]. split; [vm_compute; reflexivity|]. vm_compute. reflexivity.
 Qed.
